@@ -24,9 +24,10 @@ def registry(op_sig_choice=False):
             pass
     if sym.concretize(sym.bool("reg.my_ext")):
         e = ext.Extension("my.ext", ext.Version(0, 1, 0))
-        both = sym.concretize(sym.bool("reg.type_T"))
+        # quick: none / both / only T (an extension that is present but lacks one of the named types); thorough: any subset
+        which_types = sym.concretize(sym.int("reg.types", 0, 2)) if P(True, False) else None
         for t in ("T", "U"):
-            if both if (t == "T" or P(True, False)) else sym.concretize(sym.bool(f"reg.type_{t}")):
+            if (which_types == 1 or (which_types == 2 and t == "T")) if which_types is not None else sym.concretize(sym.bool(f"reg.type_{t}")):
                 e.add_type_def(ext.TypeDef(t, "described", [tys.TypeTypeParam(TypeBound.Any), tys.TypeTypeParam(TypeBound.Any)], ext.FromParamsBound([0, 1])))
                 have[("my.ext", t)] = True
         if sym.concretize(sym.bool("reg.op")):
@@ -62,7 +63,8 @@ def expr(tag, depth, k=None):
     if k == 2:
         return tys.Sum([[B], [expr(tag + ".s", depth - 1)]])
     if k == 3:
-        return tys.Tuple(tys.Qubit, expr(tag + ".t", depth - 1))
+        # (next to a general sum whose rows are all empty: it must stay in its general form)
+        return tys.Tuple(tys.Sum([[], []]), tys.Qubit, expr(tag + ".t", depth - 1))
     if k == 4:
         return tys.FunctionType([expr(tag + ".i", depth - 1)], [B])
     if k == 5:
@@ -128,7 +130,7 @@ def wrongly_resolved(t, have):
 
 @lemma("C11", params=[(k,) for k in range(8)], bounds="one task per outermost expression kind; type expressions of depth <= 2 (quick) / 3 (thorough) over Sum, Tuple, FunctionType (inputs and outputs), opaque types with type "
                      "arguments and sequence arguments; opaque leaves name one of 3 (extension, type) pairs; registries: my.ext present or not with any "
-                     "subset of its two type definitions (quick: both or none), plus (thorough) an unrelated extension or not",
+                     "subset of its two type definitions (quick: none, both, or only T), plus (thorough) an unrelated extension or not",
        outside="deeper expressions; opaque types whose declared bound contradicts their definition (not a loadable document)",
        opts={"max_paths": 400000, "timeout_s": 3000})
 def type_resolution(kind):
@@ -147,14 +149,14 @@ def type_resolution(kind):
     sym.check("input_not_mutated", deep_eq(dump(t._to_serial_root()), dump(t._to_serial_root())) and leftovers(t, have) == leftovers(t, have))
 
 
-@lemma("C11", params=[(0,), (1,), (2,)],
-       bounds="one task per operation name my.ext.Op / my.ext.Missing / other.ext.Op; signature output of depth <= 1, input Bool and type argument an opaque leaf "
+@lemma("C11", params=[(w, k) for w in range(3) for k in range(8)],
+       bounds="one task per operation name my.ext.Op / my.ext.Missing / other.ext.Op and outermost kind of the output type; signature output of depth <= 1, input Bool and type argument an opaque leaf "
               "(quick) / all of depth 1 (thorough); registries as in type_resolution",
        opts={"max_paths": 400000, "timeout_s": 3000, "optional_clauses": ["op_resolution_idempotent", "resolved_op_is_the_registry_definition", "type_args_resolved"]})
-def op_resolution(which):
+def op_resolution(which, out_kind):
     reg, have = registry(op_sig_choice=(which == 0))
     en, on = [("my.ext", "Op"), ("my.ext", "Missing"), ("other.ext", "Op")][which]
-    ti, to = (tys.Bool if P(True, False) else expr("in", 1)), expr("out", 1)
+    ti, to = (tys.Bool if P(True, False) else expr("in", 1)), expr("out", 1, out_kind)
     ta = opaque("arg", 0) if P(True, False) else expr("arg", 1)
     cu = ops.Custom(on, tys.FunctionType([ti], [to]), "free text", en, [tys.TypeTypeArg(ta), tys.BoundedNatArg(2)])
     r = cu.resolve(reg)
